@@ -22,14 +22,15 @@ Public API
     versions         list of fix versions (order-insensitive), or None when
                      don't-care
     version_detail   one entry per version: where it comes from
-    alt              None, or the same dict computed under the other reading
-                     of "released" (see below) when that reading changes
-                     anything; either outcome is then acceptable
+    alts             list (usually empty) of the same dict computed under the
+                     other readings of "released" (see below) that change
+                     anything; each of these outcomes is acceptable too
 
-Two readings of "released": a hotfix tag x.y.z.n, or an existing hotfix/x.y.z
-branch, presupposes that x.y.z was released; the statement does not say
-whether that counts as "release tag exists" / "next unreleased patch".  The
-primary result counts them (imply=True), `alt` does not.
+Readings of "released": a hotfix tag x.y.z.n, and an existing hotfix/x.y.z
+branch, both presuppose that x.y.z was released; the statement does not say
+whether either counts for "release tag exists" / "next unreleased patch" /
+"next minor".  The primary result lets x.y.z.n tags count and hotfix branches
+not; `alts` holds the three other combinations when they differ.
 """
 
 INF = float('inf')
@@ -101,7 +102,7 @@ def dest_order(branch_names):
     return [it[-1] for it in items]
 
 
-def _compute(branch_names, tags, dst_name, imply):
+def _compute(branch_names, tags, dst_name, tags_imply, branch_imply):
     devs, stabs, hotfixes = {}, {}, {}
     parsed = {}
     for name in branch_names:
@@ -131,9 +132,9 @@ def _compute(branch_names, tags, dst_name, imply):
             hfrevs.setdefault((x, y, z), set()).add(0)
         else:
             hfrevs.setdefault((x, y, z), set()).add(n[3])
-            if imply:
+            if tags_imply:
                 released.setdefault((x, y), set()).add(z)
-    if imply:
+    if branch_imply:
         for (x, y, z) in hotfixes:
             released.setdefault((x, y), set()).add(z)
 
@@ -241,9 +242,13 @@ def _same(a, b):
 def expected(branch_names, tags, dst_name):
     branch_names = list(branch_names)
     tags = list(tags)
-    prim = _compute(branch_names, tags, dst_name, True)
-    other = _compute(branch_names, tags, dst_name, False)
-    prim['alt'] = None if _same(prim, other) else other
-    if prim['alt'] is not None:
-        other['alt'] = None
+    prim = _compute(branch_names, tags, dst_name, True, False)
+    alts = []
+    for reading in ((True, True), (False, False), (False, True)):
+        other = _compute(branch_names, tags, dst_name, *reading)
+        if not _same(prim, other) and \
+                not any(_same(a, other) for a in alts):
+            other['alts'] = []
+            alts.append(other)
+    prim['alts'] = alts
     return prim
